@@ -46,10 +46,12 @@ def run(cmd, inp=None, timeout=120):
 
 
 def read_round_always():
+    """model variant flags `<always><muloRow><freshRets>` as the translator found them in mir.c"""
     try:
-        return "def roundAlways : Bool := true" in open(os.path.join(LEAN, "MirVerif", "Gen", "C04_Tables.lean")).read()
+        t = open(os.path.join(LEAN, "MirVerif", "Gen", "C04_Tables.lean")).read()
     except OSError:
-        return False
+        return "010"
+    return "".join("1" if f"def {n} : Bool := true" in t else "0" for n in ("roundAlways", "muloRow", "freshRets"))
 
 
 # ------------------------------------------------------------------ observations
@@ -127,7 +129,7 @@ def compare_program(exes, text, lean_text, entries, argsets, work, tag, always):
         for e in entries:
             for a in argsets:
                 cmds.append(f"run {e} {a[0]:x} {a[1]:x} {a[2]:x} {a[3]:x}")
-                cmds_s.append(f"runs {1 if always else 0} {e} {a[0]:x} {a[1]:x} {a[2]:x} {a[3]:x}")
+                cmds_s.append(f"runs {always} {e} {a[0]:x} {a[1]:x} {a[2]:x} {a[3]:x}")
         o = core_obs(lean_text, cmds + cmds_s)
         if len(o) == 2 * n:
             views["core"], views["core_simplified"] = o[:n], o[n:]
@@ -235,7 +237,7 @@ def unit_stage(ck, lower_exe, work, nfuncs, always):
             return [("<module>", f"c04_lower rc={rc} {out[-200:]} {err[-200:]}", "", P)], 0
         cf = c04_gen.parse_c_output(out)
         lt = c04_gen.to_lean(P)
-        rc2, out2, err2 = run([DRV], inp=lt + f"lower {1 if always else 0}\n", timeout=120)
+        rc2, out2, err2 = run([DRV], inp=lt + f"lower {always}\n", timeout=120)
         lf = c04_gen.parse_lean_lower(out2)
         d = []
         for fn in cf:
